@@ -20,7 +20,7 @@ import re
 import sys
 
 REPO = os.environ.get("VERIF_REPO", "/repo")
-GEN = "/verif/lean/JrpcVerif/Gen"
+GEN = os.environ.get("VERIF_GEN", "/verif/lean/JrpcVerif/Gen")
 
 
 def read(rel):
@@ -47,6 +47,54 @@ def lean_int(n):
     return f"({n})" if n < 0 else str(n)
 
 
+import ast as _ast
+
+
+def eval_int(expr, env):
+    """Evaluate a Rust integer constant expression (literals with `_`/type suffix, + - * << parentheses,
+    names from env, `as <type>` casts ignored).  Returns None when it is anything else."""
+    e = re.sub(r"\bas\s+[iu](?:8|16|32|64|128|size)\b", "", expr)
+    e = re.sub(r"(?<=\d)_(?=\d)", "", e)
+    e = re.sub(r"(\d)(?:_?[iu](?:8|16|32|64|128|size))\b", r"\1", e)
+    try:
+        tree = _ast.parse(e.strip(), mode="eval")
+    except SyntaxError:
+        return None
+
+    def ev(n):
+        if isinstance(n, _ast.Expression):
+            return ev(n.body)
+        if isinstance(n, _ast.Constant) and isinstance(n.value, int) and not isinstance(n.value, bool):
+            return n.value
+        if isinstance(n, _ast.Name):
+            return env.get(n.id)
+        if isinstance(n, _ast.UnaryOp) and isinstance(n.op, _ast.USub):
+            v = ev(n.operand)
+            return None if v is None else -v
+        if isinstance(n, _ast.BinOp) and isinstance(n.op, (_ast.Add, _ast.Sub, _ast.Mult, _ast.LShift)):
+            a, b = ev(n.left), ev(n.right)
+            if a is None or b is None:
+                return None
+            return {_ast.Add: a + b, _ast.Sub: a - b, _ast.Mult: a * b, _ast.LShift: a << b}[type(n.op)]
+        return None
+
+    return ev(tree)
+
+
+def int_consts(src, name_re=r"\w+", ty=r"[iu](?:8|16|32|64|size)"):
+    """All `const NAME: <int type> = <constant expression>;` of a file, evaluated (to a fixpoint, so
+    constants may be written in terms of each other)."""
+    raw = {m.group(1): m.group(2) for m in re.finditer(r"(?:pub(?:\([^)]*\))? )?const (" + name_re + r"): " + ty + r" = ([^;]+);", src)}
+    env = {}
+    for _ in range(len(raw) + 1):
+        for k, e in raw.items():
+            if k not in env:
+                v = eval_int(e, env)
+                if v is not None:
+                    env[k] = v
+    return env
+
+
 def find_block(src, header_re):
     """Return the text of the brace block that follows the first match of header_re."""
     m = re.search(header_re, src)
@@ -71,7 +119,8 @@ def gen_error_codes(info):
     rel = "types/src/error.rs"
     src = strip_comments(read(rel))
     problems = []
-    consts = {m.group(1): int(m.group(2)) for m in re.finditer(r"pub const (\w+_CODE): i32 = (-?\d+);", src)}
+    allc = int_consts(src, ty="i32")
+    consts = {k: v for k, v in allc.items() if k.endswith("_CODE")}
     enum_body = find_block(src, r"pub enum ErrorCode\s*\{")
     variants = []
     if enum_body is None:
@@ -92,7 +141,7 @@ def gen_error_codes(info):
         problems.append("fn code not found")
     else:
         body = find_block(code_fn, r"match \*?self\s*\{") or ""
-        for arm in [a.strip() for a in body.split(",") if a.strip()]:
+        for arm in [re.sub(r"\b(?:ErrorCode|Self)::", "", a.strip()) for a in body.split(",") if a.strip()]:
             m = re.fullmatch(r"(\w+)\s*=>\s*(\w+)", arm)
             m2 = re.fullmatch(r"ServerError\((\w+)\)\s*=>\s*(\w+)", arm)
             if m2:
@@ -101,8 +150,8 @@ def gen_error_codes(info):
                     problems.append(f"code(): ServerError arm is not the identity: {arm}")
             elif m and m.group(2) in consts:
                 code_of[m.group(1)] = consts[m.group(2)]
-            elif m and re.fullmatch(r"-?\d+", m.group(2)):
-                code_of[m.group(1)] = int(m.group(2))
+            elif m and eval_int(m.group(2), allc) is not None:
+                code_of[m.group(1)] = eval_int(m.group(2), allc)
             else:
                 problems.append(f"code(): unrecognised arm {arm!r}")
     for v in named:
@@ -117,8 +166,8 @@ def gen_error_codes(info):
         problems.append("impl From<i32> not found")
     else:
         body = find_block(from_impl, r"match code\s*\{") or ""
-        for arm in [a.strip() for a in body.split(",") if a.strip()]:
-            m = re.fullmatch(r"(-?\w+)\s*=>\s*(\w+)", arm)
+        for arm in [re.sub(r"\b(?:ErrorCode|Self)::", "", a.strip()) for a in body.split(",") if a.strip()]:
+            m = re.fullmatch(r"(-?[\w ]+?)\s*=>\s*(\w+)", arm)
             m2 = re.fullmatch(r"(\w+)\s*=>\s*ServerError\((\w+)\)", arm)
             if m2:
                 default_ok = m2.group(1) == m2.group(2)
@@ -126,8 +175,8 @@ def gen_error_codes(info):
                     problems.append(f"from(): default arm is not ServerError(code): {arm}")
             elif m and m.group(1) in consts and m.group(2) in named:
                 kind_of.append((consts[m.group(1)], m.group(2)))
-            elif m and re.fullmatch(r"-?\d+", m.group(1)) and m.group(2) in named:
-                kind_of.append((int(m.group(1)), m.group(2)))
+            elif m and m.group(2) in named and eval_int(m.group(1), allc) is not None:
+                kind_of.append((eval_int(m.group(1), allc), m.group(2)))
             else:
                 problems.append(f"from(): unrecognised arm {arm!r}")
         if not default_ok and not any("default arm" in p for p in problems):
@@ -250,6 +299,103 @@ def _resolve_guard_arg(expr, fn_name, fn_params, fn_text_before, depth=0):
     return ("unknown", re.sub(r"\s+", " ", e))
 
 
+def _matching_brace(src, open_at):
+    depth = 0
+    for j in range(open_at, len(src)):
+        if src[j] == "{":
+            depth += 1
+        elif src[j] == "}":
+            depth -= 1
+            if depth == 0:
+                return j
+    return None
+
+
+def _split_top_level(text):
+    """split a struct-literal body at commas that are not nested in () [] {} or <>-free closures"""
+    parts, depth, cur = [], 0, ""
+    for ch in text:
+        if ch in "([{":
+            depth += 1
+        elif ch in ")]}":
+            depth -= 1
+        if ch == "," and depth == 0:
+            parts.append(cur)
+            cur = ""
+        else:
+            cur += ch
+    if cur.strip():
+        parts.append(cur)
+    return [p.strip() for p in parts if p.strip()]
+
+
+def _tower_builder_rebuilds(src, problems):
+    """Every struct-literal reconstruction (`TowerServiceBuilder { .. }` / `Self { .. }`, fields in any
+    order, `..self` allowed) inside an `impl .. TowerServiceBuilder<..> { .. }` block, and every
+    assignment `self.conn_guard = ..` / `self.conn_id = ..` there.
+    Returns (rebuilds, assigns): rebuilds = [(line, fn, guard_src, conn_id_src)] with src =
+    ("carried",) | ("fresh", expr) | ("missing",); assigns = [(line, fn, field)]."""
+    rebuilds, assigns = [], []
+    found_impl = False
+    for im in re.finditer(r"\bimpl\b[^{;]*?\bTowerServiceBuilder\b[^{;]*\{", src):
+        if re.search(r"\bfor\s+TowerServiceBuilder\b", im.group(0)):
+            continue  # trait impls (Debug, Clone, ..) do not build builders from builders
+        found_impl = True
+        open_at = im.end() - 1
+        close_at = _matching_brace(src, open_at)
+        if close_at is None:
+            problems.append("impl TowerServiceBuilder: unbalanced braces")
+            continue
+        for lm in re.finditer(r"\b(TowerServiceBuilder|Self)\s*\{", src[open_at:close_at]):
+            at = open_at + lm.start()
+            before = src[max(0, at - 40) : at].rstrip()
+            if before.endswith("->") or before.endswith("impl") or before.endswith("for") or before.endswith("let") or before.endswith("struct"):
+                continue  # a return type / pattern, not a struct expression
+            b_open = open_at + lm.end() - 1
+            b_close = _matching_brace(src, b_open)
+            if b_close is None:
+                continue
+            body = src[b_open + 1 : b_close]
+            fn_name, _params, fn_body_at = _enclosing_fn(src, at)
+            fn_text_before = src[fn_body_at:at]
+            fields, has_update = {}, None
+            for part in _split_top_level(body):
+                if part.startswith(".."):
+                    has_update = re.sub(r"\s+", "", part[2:])
+                    continue
+                fm = re.match(r"(\w+)\s*(?::\s*(.*))?$", part, flags=re.S)
+                if not fm:
+                    problems.append(f"impl TowerServiceBuilder::{fn_name}: unrecognised field {part[:40]!r}")
+                    continue
+                fields[fm.group(1)] = re.sub(r"\s+", " ", fm.group(2)).strip() if fm.group(2) else None
+
+            def classify(field):
+                if field not in fields:
+                    if has_update in ("self", "self.clone()"):
+                        return ("carried",)
+                    return ("missing",)
+                e = fields[field]
+                if e is None or e == field:  # shorthand: a local of that name
+                    pat_destructure = r"\blet\s+(?:Self|TowerServiceBuilder)\s*\{[^}]*\b" + field + r"\b[^}]*\}\s*=\s*self\b"
+                    pat_let = r"\blet\s+(?:mut\s+)?" + field + r"\s*(?::[^=;]+)?=\s*self\s*\.\s*" + field + r"\s*(?:\.clone\(\))?\s*;"
+                    if re.search(pat_destructure, fn_text_before, flags=re.S) or re.search(pat_let, fn_text_before):
+                        return ("carried",)
+                    return ("fresh", f"local `{field}` of unknown origin")
+                if re.fullmatch(r"self\s*\.\s*" + field + r"(\s*\.clone\(\))?", e) or re.fullmatch(r"Arc::clone\(\s*&\s*self\s*\.\s*" + field + r"\s*\)", e):
+                    return ("carried",)
+                return ("fresh", e)
+
+            line = src.count("\n", 0, at) + 1
+            rebuilds.append((line, fn_name or "?", classify("conn_guard"), classify("conn_id")))
+        for am in re.finditer(r"\bself\s*\.\s*(conn_guard|conn_id)\s*=[^=]", src[open_at:close_at]):
+            at = open_at + am.start()
+            fn_name, _, _ = _enclosing_fn(src, at)
+            assigns.append((src.count("\n", 0, at) + 1, fn_name or "?", am.group(1)))
+    if not found_impl:
+        problems.append("no `impl .. TowerServiceBuilder<..>` block found in server/src/server.rs")
+    return rebuilds, assigns
+
+
 def gen_conn_wiring(info):
     """C11: which configuration value sizes the connection guard at every construction site, the
     public knob that feeds it, the single acquisition point and the refusal status."""
@@ -275,6 +421,8 @@ def gen_conn_wiring(info):
         sites.append((line, fn_name, res))
     if not sites:
         problems.append("no ConnectionGuard::new(..) site found in server/src/server.rs")
+
+    rebuilds, assigns = _tower_builder_rebuilds(src, problems)
 
     # setter flows: `pub fn <name>(mut self, <p>: u32) -> Self { self.<field> = <p>; self }`
     setter_flows = []
@@ -379,6 +527,38 @@ def gen_conn_wiring(info):
     L.append(",\n".join(f"  {{ line := {ln}, encl := {lean_str(fn)}, src := {src_lean(r)} }}" for ln, fn, r in sites))
     L.append("]")
     L.append("")
+    def carry_lean(c):
+        if c[0] == "carried":
+            return ".carried"
+        if c[0] == "missing":
+            return ".missing"
+        return f".fresh {lean_str(c[1])}"
+
+    L.append("/-- where a field of a rebuilt `TowerServiceBuilder` comes from -/")
+    L.append("inductive Carry where")
+    L.append("  | carried                -- `self.<field>` (also via `..self`, a destructured `self`, `.clone()`)")
+    L.append("  | fresh (expr : String)  -- any other expression, e.g. a new `ConnectionGuard::new(..)`")
+    L.append("  | missing")
+    L.append("  deriving DecidableEq, Repr")
+    L.append("")
+    L.append("structure Rebuild where")
+    L.append("  line : Nat")
+    L.append("  encl : String")
+    L.append("  guard : Carry")
+    L.append("  connId : Carry")
+    L.append("  deriving DecidableEq, Repr")
+    L.append("")
+    L.append("/-- every struct-literal reconstruction of the builder inside `impl TowerServiceBuilder` (the methods")
+    L.append("that change a type parameter cannot mutate `self` and rebuild it field by field) -/")
+    L.append("def towerBuilderRebuilds : List Rebuild := [")
+    L.append(",\n".join(f"  {{ line := {ln}, encl := {lean_str(fn)}, guard := {carry_lean(g)}, connId := {carry_lean(ci)} }}" for ln, fn, g, ci in rebuilds))
+    L.append("]")
+    L.append("")
+    L.append("/-- every assignment `self.conn_guard = ..` / `self.conn_id = ..` inside `impl TowerServiceBuilder`: (line, fn, field) -/")
+    L.append("def towerBuilderAssigns : List (Nat × String × String) := [")
+    L.append(",\n".join(f"  ({ln}, {lean_str(fn)}, {lean_str(fld)})" for ln, fn, fld in assigns))
+    L.append("]")
+    L.append("")
     L.append("/-- builder setters `pub fn f(mut self, p: u32) -> Self { self.<field> = p; self }` as (fn, field, param) -/")
     L.append("def cfgSetterFlows : List (String × String × String) := [")
     L.append(",\n".join(f"  ({lean_str(a)}, {lean_str(b)}, {lean_str(c)})" for a, b, c in setter_flows))
@@ -412,6 +592,8 @@ def gen_conn_wiring(info):
         "acquires": [list(a) for a in acquires],
         "refusal_status": status_of,
         "guard_new": list(guard_new),
+        "tower_builder_rebuilds": [[ln, fn, list(g), list(ci)] for ln, fn, g, ci in rebuilds],
+        "tower_builder_assigns": [list(a) for a in assigns],
     }
 
 
@@ -493,7 +675,7 @@ def gen_error_consts(info):
     rel = "types/src/error.rs"
     src = strip_comments(read(rel))
     problems = []
-    codes = {m.group(1): int(m.group(2)) for m in re.finditer(r"pub const (\w+_CODE): i32 = (-?\d+);", src)}
+    codes = {k: v for k, v in int_consts(src, ty="i32").items() if k.endswith("_CODE")}
     msgs = {m.group(1): m.group(2) for m in re.finditer(r'pub const (\w+_MSG): &str = "((?:[^"\\]|\\.)*)";', src)}
     # ErrorCode::message arms
     msg_fn = find_block(src, r"pub const fn message\(&self\) -> &'static str\s*\{")
@@ -502,7 +684,7 @@ def gen_error_consts(info):
         problems.append("fn message not found")
     else:
         body = find_block(msg_fn, r"match \*?self\s*\{") or ""
-        for arm in [a.strip() for a in body.split(",") if a.strip()]:
+        for arm in [re.sub(r"\b(?:ErrorCode|Self)::", "", a.strip()) for a in body.split(",") if a.strip()]:
             m = re.fullmatch(r"(\w+)(?:\(_\))?\s*=>\s*(\w+)", arm)
             if m and m.group(2) in msgs:
                 msg_of[m.group(1)] = m.group(2)
@@ -510,12 +692,69 @@ def gen_error_consts(info):
                 problems.append(f"message(): unrecognised arm {arm!r}")
     # reject_* helpers: fn reject_x(limit: T) -> ErrorObjectOwned { ErrorObjectOwned::owned(CODE, MSG, Some(format!("Exceeded max limit of {limit}"))) }
     rejects = {}
-    for m in re.finditer(r"pub fn (reject_\w+)\(limit: \w+\) -> ErrorObjectOwned\s*\{\s*ErrorObjectOwned::owned\(\s*(\w+),\s*(\w+),\s*Some\(format!\(\"((?:[^\"\\]|\\.)*)\"\)\),?\s*\)\s*\}", src):
-        name, code, msg, fmt = m.groups()
-        if code in codes and msg in msgs and fmt.endswith("{limit}") and fmt.count("{") == 1:
-            rejects[name] = (code, msg, fmt[: -len("{limit}")])
-        else:
-            problems.append(f"{name}: unrecognised shape")
+    owned_re = r"ErrorObjectOwned::owned\(\s*([\w:]+),\s*([\w:]+),\s*Some\(format!\(\"((?:[^\"\\]|\\.)*)\"(?:\s*,\s*(\w+))?\)\),?\s*\)"
+
+    def split_args(a):
+        out, d, cur = [], 0, ""
+        for ch in a:
+            if ch in "([{":
+                d += 1
+            elif ch in ")]}":
+                d -= 1
+            if ch == "," and d == 0:
+                out.append(cur.strip())
+                cur = ""
+            else:
+                cur += ch
+        if cur.strip():
+            out.append(cur.strip())
+        return out
+
+    def reject_shape(body, limit_name, depth=0):
+        """(code const, msg const, data prefix) of a body that is `ErrorObjectOwned::owned(CODE, MSG,
+        Some(format!("<prefix>{limit}")))` — directly or through one private helper function"""
+        b = re.sub(r"\s+", " ", body).strip().rstrip(";").strip()
+        b = re.sub(r"^return ", "", b)
+        m = re.fullmatch(owned_re, b)
+        if m:
+            code, msg, fmt, arg = m.groups()
+            if arg is None and fmt.endswith("{" + limit_name + "}") and fmt.count("{") == 1:
+                return code, msg, fmt[: -len("{" + limit_name + "}")]
+            if arg == limit_name and fmt.endswith("{}") and fmt.count("{") == 1:
+                return code, msg, fmt[:-2]
+            return None
+        mc = re.fullmatch(r"(\w+)\((.*)\)", b)
+        if mc and depth < 2:
+            hp, hb = None, None
+            mh = re.search(r"\bfn " + re.escape(mc.group(1)) + r"\s*(?:<[^>]*>)?\(([^)]*)\)\s*->\s*ErrorObjectOwned\s*\{", src)
+            if mh:
+                hb = find_block(src, r"\bfn " + re.escape(mc.group(1)) + r"\s*(?:<[^>]*>)?\([^)]*\)\s*->\s*ErrorObjectOwned\s*\{")
+                hp = [x.split(":")[0].strip() for x in split_args(mh.group(1))]
+            args = split_args(mc.group(2))
+            if hb is not None and hp is not None and len(hp) == len(args):
+                # substitute parameters by arguments (identifiers only); the limit keeps a fresh name
+                text = hb
+                lim_param = None
+                for pn, av in zip(hp, args):
+                    if av == limit_name:
+                        lim_param = pn
+                    else:
+                        text = re.sub(r"\b" + re.escape(pn) + r"\b", av, text)
+                return reject_shape(text, lim_param or limit_name, depth + 1)
+        return None
+
+    for m in re.finditer(r"pub fn (reject_\w+)\(\s*(\w+)\s*:\s*\w+\s*\)\s*->\s*ErrorObjectOwned\s*\{", src):
+        name, lim = m.group(1), m.group(2)
+        body = find_block(src, r"pub fn " + re.escape(name) + r"\(")
+        sh = reject_shape(body or "", lim)
+        if sh:
+            code, msg, prefix = sh
+            code = code.split("::")[-1]
+            msg = msg.split("::")[-1]
+            if code in codes and msg in msgs:
+                rejects[name] = (code, msg, prefix)
+                continue
+        problems.append(f"{name}: unrecognised shape")
     for need in ["reject_too_big_request", "reject_too_big_batch_request", "reject_too_big_batch_response", "reject_too_many_subscriptions"]:
         if need not in rejects:
             problems.append(f"{need} not found")
@@ -616,19 +855,73 @@ def gen_limit_wiring(info):
     sites_req = []   # (site, field)
     sites_resp = []
 
-    def field_of(expr, src_before):
-        """resolve an expression / local variable to a ServerConfig field name"""
+    def field_of(expr, src_before, depth=0):
+        """resolve an expression / local variable to a ServerConfig field name: `x.field`, `x.field as T`,
+        a local bound by `let l = <expr>;`, or a local bound by a struct pattern
+        `let ServerConfig { field, field: l, .. } = ..;` (also `Self {..}` / `&`-patterns)"""
+        if depth > 6:
+            return None
         expr = expr.strip()
-        expr = re.sub(r"\s+as\s+usize$", "", expr).strip()
-        m = re.search(r"(max_\w+_body_size)$", expr)
+        expr = re.sub(r"\s+as\s+\w+$", "", expr).strip()
+        expr = re.sub(r"^\(+|\)+$", "", expr).strip() if expr.startswith("(") and expr.endswith(")") else expr
+        expr = re.sub(r"^[&*]+", "", expr).strip()
+        m = re.search(r"\.\s*(max_\w+)$", expr)
         if m:
             return m.group(1)
         if re.fullmatch(r"\w+", expr):
-            # a local: `let <expr> = <something>.max_x_body_size;`
-            ms = list(re.finditer(r"let\s+" + re.escape(expr) + r"\s*=\s*([^;]+);", src_before))
-            if ms:
-                return field_of(ms[-1].group(1), src_before[: ms[-1].start()])
+            best = None   # (position, field or None)
+            for ms in re.finditer(r"let\s+(?:mut\s+)?" + re.escape(expr) + r"\s*(?::[^=;]+)?=\s*([^;]+);", src_before):
+                best = (ms.start(), ("expr", ms.group(1), src_before[: ms.start()]))
+            for ms in re.finditer(r"let\s+&?(?:\w+::)*\w+\s*\{([^}]*)\}\s*=\s*[^;]+;", src_before):
+                for ent in [e.strip() for e in ms.group(1).split(",")]:
+                    mm = re.fullmatch(r"(?:ref\s+)?(\w+)(?:\s*:\s*(?:ref\s+)?(\w+))?", ent)
+                    if mm and (mm.group(2) or mm.group(1)) == expr:
+                        if best is None or ms.start() > best[0]:
+                            best = (ms.start(), ("field", mm.group(1)))
+            if best:
+                kind = best[1]
+                if kind[0] == "field":
+                    return kind[1] if kind[1].startswith("max_") else None
+                return field_of(kind[1], kind[2], depth + 1)
+            # a function parameter with the field's name
+            if expr.startswith("max_"):
+                return expr
         return None
+
+    def fn_text(src, name):
+        """(text before the body's opening brace incl. the signature, body) of `fn name`"""
+        m = re.search(r"\bfn " + re.escape(name) + r"\s*[<(]", src)
+        if not m:
+            return None, None
+        i = m.end()
+        # skip to the body: first `{` at paren/angle depth 0 after the parameter list
+        depth = 0
+        j = src.find("(", m.start())
+        k = j
+        while k < len(src):
+            if src[k] == "(":
+                depth += 1
+            elif src[k] == ")":
+                depth -= 1
+                if depth == 0:
+                    break
+            k += 1
+        params = src[j + 1 : k]
+        ob = src.find("{", k)
+        while ob >= 0:
+            # `where` clauses may contain `{`? (no) — take the first
+            break
+        d = 0
+        e = ob
+        while e < len(src):
+            if src[e] == "{":
+                d += 1
+            elif src[e] == "}":
+                d -= 1
+                if d == 0:
+                    break
+            e += 1
+        return params, src[ob + 1 : e]
 
     srv = strip_comments(read("server/src/server.rs"))
     ws = strip_comments(read("server/src/transport/ws.rs"))
@@ -644,7 +937,7 @@ def gen_limit_wiring(info):
             if not f:
                 problems.append(f"{name}: cannot resolve {m.group(1)!r}")
 
-    m = re.search(r"http::call_with_service\(\s*request\s*,\s*\w+\s*,\s*(\w+)\s*,\s*rpc_service\s*\)", srv)
+    m = re.search(r"http::call_with_service\(\s*[^,]+,\s*[^,]+,\s*([^,]+?)\s*,", srv)
     if m:
         f = field_of(m.group(1), srv[: m.start()])
         sites_req.append(("server.rs:TowerService:http::call_with_service", f or "?"))
@@ -653,31 +946,51 @@ def gen_limit_wiring(info):
     else:
         problems.append("server.rs: call to http::call_with_service not found")
 
-    m = re.search(r"let ServerConfig \{([^}]*)\} = server_cfg;\s*let rpc_service = [^;]*;\s*let rp = call_with_service\(\s*request\s*,\s*\w+\s*,\s*(\w+)\s*,\s*rpc_service\s*\)", http, flags=re.S)
-    if m and m.group(2) in [x.strip() for x in m.group(1).split(",")]:
-        sites_req.append(("http.rs:call_with_service_builder", m.group(2)))
+    # http.rs: call_with_service_builder hands a ServerConfig field to call_with_service (3rd argument)
+    _, bbody = fn_text(http, "call_with_service_builder")
+    m = re.search(r"(?<![:\w])call_with_service\(\s*([^,]+),\s*([^,]+),\s*([^,]+),", bbody or "")
+    if m:
+        f = field_of(m.group(3), bbody[: m.start()])
+        sites_req.append(("http.rs:call_with_service_builder", f or "?"))
+        if not f:
+            problems.append("http.rs: cannot resolve the request limit call_with_service_builder passes on")
     else:
         problems.append("http.rs: call_with_service_builder wiring not recognised")
 
-    m = re.search(r"pub async fn call_with_service<[^>]*>\(\s*request: [^,]*,\s*batch_config: [^,]*,\s*(\w+): u32,\s*rpc_service: S,?\s*\)", http, flags=re.S)
-    if m:
-        param = m.group(1)
-        body = http[m.end():]
-        m1 = re.search(r"read_body\(&parts\.headers, body, (\w+)\)", body)
-        m2 = re.search(r"response::too_large\((\w+)\)", body)
-        sites_req.append(("http.rs:call_with_service:read_body", "max_request_body_size" if (m1 and m1.group(1) == param) else "?"))
-        sites_req.append(("http.rs:call_with_service:too_large", "max_request_body_size" if (m2 and m2.group(1) == param) else "?"))
-        if not (m1 and m1.group(1) == param and m2 and m2.group(1) == param):
+    # http.rs: call_with_service uses its u32 parameter for read_body and too_large
+    params, cbody = fn_text(http, "call_with_service")
+    u32s = re.findall(r"(\w+)\s*:\s*u32", params or "")
+    if cbody is not None and len(u32s) == 1:
+        param = u32s[0]
+
+        def is_param(e):
+            e = re.sub(r"\s+as\s+\w+$", "", e.strip())
+            if e == param:
+                return True
+            ms = list(re.finditer(r"let\s+" + re.escape(e) + r"\s*(?::[^=;]+)?=\s*([^;]+);", cbody)) if re.fullmatch(r"\w+", e) else []
+            return bool(ms) and re.sub(r"\s+as\s+\w+$", "", ms[-1].group(1).strip()) == param
+
+        m1 = re.search(r"read_body\(\s*[^,]+,\s*[^,]+,\s*([^)]+?)\s*\)", cbody)
+        m2s = re.findall(r"too_large\(\s*([^)]+?)\s*\)", cbody)
+        ok1 = bool(m1 and is_param(m1.group(1)))
+        ok2 = bool(m2s) and all(is_param(x) for x in m2s)
+        sites_req.append(("http.rs:call_with_service:read_body", "max_request_body_size" if ok1 else "?"))
+        sites_req.append(("http.rs:call_with_service:too_large", "max_request_body_size" if ok2 else "?"))
+        if not (ok1 and ok2):
             problems.append("http.rs: read_body / too_large do not use the request-size parameter")
     else:
         problems.append("http.rs: fn call_with_service signature not recognised")
 
-    m = re.search(r"let ServerConfig \{([^}]*)\} = server_cfg;", ws)
-    m2 = re.search(r"reject_too_big_request\((\w+)\)", ws)
-    if m and m2 and m2.group(1) in [x.strip() for x in m.group(1).split(",")]:
-        sites_req.append(("ws.rs:background_task:reject_too_big_request", m2.group(1)))
+    # ws.rs: the argument of reject_too_big_request in the receive loop
+    m2s = list(re.finditer(r"reject_too_big_request\(\s*([^)]+?)\s*\)", ws))
+    if m2s:
+        for m2 in m2s:
+            f = field_of(m2.group(1), ws[: m2.start()])
+            sites_req.append(("ws.rs:background_task:reject_too_big_request", f or "?"))
+            if not f:
+                problems.append("ws.rs: reject_too_big_request argument not recognised")
     else:
-        problems.append("ws.rs: reject_too_big_request argument not recognised")
+        problems.append("ws.rs: reject_too_big_request not found")
 
     for name, src in (("server.rs:TowerService:ws", srv), ("ws.rs:connect", ws), ("http.rs:call_with_service_builder", http)):
         found = False
@@ -694,8 +1007,8 @@ def gen_limit_wiring(info):
         if not ms:
             problems.append(f"{name}: BoundedSubscriptions::new not found")
         for m in ms:
-            mm = re.search(r"(max_\w+)$", m.group(1).strip())
-            sites_subs.append((name + ":BoundedSubscriptions::new", mm.group(1) if mm else "?"))
+            f = field_of(m.group(1), src[: m.start()])
+            sites_subs.append((name + ":BoundedSubscriptions::new", f or "?"))
     ok = not problems
 
     def lf(f):
